@@ -5,7 +5,7 @@ from luagen import Prog
 
 WHERES = ["block", "while", "repeat", "repeatcond", "fornum", "forin", "function"]
 EXITS = ["fall", "break", "goto_out", "goto_cont", "return", "tailcall", "pcall_error", "xpcall_error", "xpcall_badhandler",
-         "pcall_rterror", "co_yield", "co_death", "co_error", "nested_pcall"]
+         "pcall_rterror", "co_yield", "co_death", "co_error", "co_rterror", "nested_pcall"]
 CAPTURES = ["get", "incget", "nested", "modafter"]
 LOOPS = {"while", "repeat", "repeatcond", "fornum", "forin"}
 
@@ -37,8 +37,12 @@ def capture_stmts(p, cap, var, extra=None):
 NESTS = ["body", "do", "if"]      # where in the construct the captured local lives: directly in the body or in a nested block
 
 
-def clos_case(where, exit_, cap, nest="body"):
+def clos_case(where, exit_, cap, nest="body", reg0=False):
+    """reg0: the loop counter lives in an upvalue, so the captured local is the scope
+    function's very first register"""
     if nest != "body" and where not in ("while", "repeat", "fornum", "forin"):
+        return None
+    if reg0 and (where not in ("while", "repeat", "repeatcond", "block") or nest != "body"):
         return None
     if exit_ in ("break", "goto_cont") and where not in LOOPS:
         return None
@@ -51,6 +55,10 @@ def clos_case(where, exit_, cap, nest="body"):
                           p.ret([p.bin("+", p.id("a"), p.id("x4"))])])
     pre = [p.local(["keep", "ki"], [p.table([]), p.num(0)]),
            p.localfunction("churn", p.func(list("abcdefgh"), churn_body))]
+    decl_i = [p.local(["i"], [p.num(0)])]
+    if reg0:
+        pre += decl_i
+        decl_i = []
     # ---- the exit statement
     def exit_stmt():
         if exit_ == "fall":
@@ -67,7 +75,7 @@ def clos_case(where, exit_, cap, nest="body"):
             return [p.ret([p.call(p.id("churn"), [p.num(i) for i in range(1, 9)])])]
         if exit_ in ("pcall_error", "xpcall_error", "xpcall_badhandler", "co_error"):
             return [p.callstat(p.call(p.id("error"), [p.str("x")]))]
-        if exit_ == "pcall_rterror":
+        if exit_ in ("pcall_rterror", "co_rterror"):      # raised by the VM in the very frame that owns the captured local
             return [p.local(["zz"], [p.bin("+", p.nil(), p.num(1))])]
         if exit_ == "nested_pcall":
             return [p.emit([p.call(p.id("pcall"), [p.id("error"), p.str("inner")])]), p.callstat(p.call(p.id("error"), [p.str("x")]))]
@@ -95,17 +103,17 @@ def clos_case(where, exit_, cap, nest="body"):
             + capture_stmts(p, cap, "v") + [guard(p.bin("==", p.id("i"), p.num(2)), exit_stmt())]
         if exit_ == "goto_cont":
             inner.append(p.label("cont"))
-        body += [p.local(["i"], [p.num(0)]), p.while_(p.bin("<", p.id("i"), p.num(3)), p.block(nested(inner, 1)))]
+        body += decl_i + [p.while_(p.bin("<", p.id("i"), p.num(3)), p.block(nested(inner, 1)))]
     elif where == "repeat":
         inner = [p.assign([p.id("i")], [p.bin("+", p.id("i"), p.num(1))]), p.local(["v"], [p.bin("*", p.id("i"), p.num(10))])] \
             + capture_stmts(p, cap, "v") + [guard(p.bin("==", p.id("i"), p.num(2)), exit_stmt())]
         if exit_ == "goto_cont":
             inner.append(p.label("cont"))
-        body += [p.local(["i"], [p.num(0)]), p.repeat(p.block(nested(inner, 1)), p.bin(">=", p.id("i"), p.num(3)))]
+        body += decl_i + [p.repeat(p.block(nested(inner, 1)), p.bin(">=", p.id("i"), p.num(3)))]
     elif where == "repeatcond":
         inner = [p.assign([p.id("i")], [p.bin("+", p.id("i"), p.num(1))]), p.local(["v"], [p.bin("*", p.id("i"), p.num(10))])] \
             + capture_stmts(p, cap, "v") + [guard(p.bin("==", p.id("i"), p.num(2)), exit_stmt())]
-        body += [p.local(["i"], [p.num(0)]), p.repeat(p.block(inner), p.bin(">=", p.id("v"), p.num(30)))]
+        body += decl_i + [p.repeat(p.block(inner), p.bin(">=", p.id("v"), p.num(30)))]
     elif where == "fornum":
         inner = [p.local(["v"], [p.bin("*", p.id("i"), p.num(10))])] + capture_stmts(p, cap, "v", extra="i") \
             + [guard(p.bin("==", p.id("i"), p.num(2)), exit_stmt())]
@@ -135,7 +143,7 @@ def clos_case(where, exit_, cap, nest="body"):
     elif exit_ == "xpcall_badhandler":       # the message handler fails too
         h = p.func(["m"], p.block([p.emit([p.str("handler-runs")]), p.callstat(p.call(p.id("error"), [p.str("handler-fails")]))]))
         pre.append(p.emit([p.paren(p.call(p.id("xpcall"), [p.id("scope"), h]))]))
-    elif exit_ in ("co_yield", "co_death", "co_error"):
+    elif exit_ in ("co_yield", "co_death", "co_error", "co_rterror"):
         pre += [p.local(["co"], [p.call(p.field(p.id("coroutine"), "create"), [p.id("scope")])]),
                 p.emit([p.call(p.field(p.id("coroutine"), "resume"), [p.id("co")])]),
                 p.emit([p.call(p.field(p.id("coroutine"), "status"), [p.id("co")])])]
@@ -157,6 +165,53 @@ def all_clos():
         r = clos_case(w, e, c, n)
         if r:
             out.append(((w, e, c, n), r))
+    for w, e, c in itertools.product(WHERES, EXITS, CAPTURES):
+        r = clos_case(w, e, c, "body", reg0=True)
+        if r:
+            out.append(((w, e, c, "reg0"), r))
+    return out
+
+
+def retry_cases():
+    """the same capturing function is run again from the same stack position after a failed
+    protected call / a dead coroutine; nothing of an enclosing frame is captured (globals only),
+    so the failed attempt's upvalues are the only ones the thread ever had open"""
+    out = []
+    for catcher, fails, cap, where in itertools.product(["pcall", "xpcall", "coresume", "cowrap_in_pcall"], ["all", "first", "second", "none"],
+                                                        ["get", "incget"], ["main", "function", "coroutine"]):
+        p = Prog()
+        # attempt(tag): local v = tag; K[#K+1] = closures over v; fails when told to
+        body = [p.local(["v"], [p.id("tag")])]
+        body.append(p.assign([p.index(p.id("K"), p.bin("+", p.un("#", p.id("K")), p.num(1)))], [p.func([], p.block([p.ret([p.id("v")])]))]))
+        if cap == "incget":
+            body.append(p.assign([p.index(p.id("K"), p.bin("+", p.un("#", p.id("K")), p.num(1)))],
+                                 [p.func([], p.block([p.assign([p.id("v")], [p.bin("..", p.id("v"), p.str("+"))]), p.ret([p.id("v")])]))]))
+        body.append(p.if_([p.id("fail")], [p.block([p.callstat(p.call(p.id("error"), [p.bin("..", p.str("failed-"), p.id("tag"))]))])]))
+        body.append(p.ret([p.bin("..", p.str("done-"), p.id("tag"))]))
+        ss = [p.assign([p.id("K")], [p.table([])]),
+              p.assign([p.id("attempt")], [p.func(["tag", "fail"], p.block(body))])]
+        def run(tag, fail):
+            args = [p.str(tag), p.true() if fail else p.false()]
+            if catcher == "pcall":
+                return p.emit([p.str(tag), p.call(p.id("pcall"), [p.id("attempt")] + args)])
+            if catcher == "xpcall":
+                return p.emit([p.str(tag), p.call(p.id("xpcall"), [p.func([], p.block([p.ret([p.call(p.id("attempt"), args)])])),
+                                                                    p.func(["m"], p.block([p.ret([p.id("m")])]))])])
+            if catcher == "coresume":
+                return p.emit([p.str(tag), p.call(p.field(p.id("coroutine"), "resume"), [p.call(p.field(p.id("coroutine"), "create"), [p.id("attempt")])] + args)])
+            return p.emit([p.str(tag), p.call(p.id("pcall"), [p.call(p.field(p.id("coroutine"), "wrap"), [p.id("attempt")])] + args)])
+        plan = {"all": [True, True, True], "first": [True, False, False], "second": [False, True, False], "none": [False, False, False]}[fails]
+        runs = [run("a%d" % (i + 1), f) for i, f in enumerate(plan)]
+        use = [p.forin(["i", "f"], [p.call(p.id("ipairs"), [p.id("K")])], p.block([p.emit([p.id("i"), p.call(p.id("f"), [])])]))]
+        use2 = [p.forin(["i", "f"], [p.call(p.id("ipairs"), [p.id("K")])], p.block([p.emit([p.id("i"), p.call(p.id("f"), [])])]))]
+        if where == "main":
+            ss += runs + use + use2
+        elif where == "function":
+            ss += [p.assign([p.id("driver")], [p.func([], p.block(runs + use))]), p.callstat(p.call(p.id("driver"), []))] + use2
+        else:
+            ss += [p.assign([p.id("driver")], [p.func([], p.block(runs + use))]),
+                   p.emit([p.call(p.field(p.id("coroutine"), "resume"), [p.call(p.field(p.id("coroutine"), "create"), [p.id("driver")])])])] + use2
+        out.append((p, p.block(ss)))
     return out
 
 
